@@ -614,6 +614,13 @@ def run(ctx: Any, prog: Program) -> None:
                     child, anc = anc, bsp.parents.get(anc)
                 if inner_loop is not lp or top_stmt is None:
                     continue
+                # `if layout_b: <write the record in the other layout>; continue` is an alternative record, not a skipped one (L1 compares both)
+                holder_ = bsp.parents.get(cont)
+                blk_ = next((getattr(holder_, f_) for f_ in ('body', 'orelse') if isinstance(getattr(holder_, f_, None), list) and cont in getattr(holder_, f_)), [])
+                writes_before = any(isinstance(x, (ast.Yield, ast.YieldFrom)) or (isinstance(x, ast.Call) and isinstance(x.func, ast.Attribute) and x.func.attr in ('pack', 'pack_into', 'write'))
+                                    for st_ in blk_[:blk_.index(cont)] for x in ast.walk(st_)) if cont in blk_ else False
+                if writes_before:
+                    continue
                 n_skip += 1
                 idx = lp.body.index(top_stmt) if top_stmt in lp.body else None
                 if idx is None:
